@@ -184,7 +184,8 @@ def t_multi(task):
             ('ignore doubly-infinite pole at 3', lambda: mp.nsum(lambda k: 1 / (k - 3) ** 2, [-inf, inf], ignore=True), lambda: 2 * mp.zeta(2)),
             ('ignore half-infinite pole at 5', lambda: mp.nsum(lambda k: 1 / (k - 5) ** 2, [0, inf], ignore=True), lambda: mp.zeta(2) + sum(mp.mpf(1) / j ** 2 for j in range(1, 6))),
             ('ignore 2-D pole at (2,1)', lambda: mp.nsum(lambda j, k: 1 / (((j - 2) ** 2 + (k - 1) ** 2) * mp.mpf(2) ** (j + k)), [0, inf], [0, inf], ignore=True),
-             lambda: mp.nsum(lambda j: mp.nsum(lambda k: 0 if (j == 2 and k == 1) else 1 / (((j - 2) ** 2 + (k - 1) ** 2) * mp.mpf(2) ** (j + k)), [0, inf]), [0, inf])),
+             # reference: plain double loop, truncated where the geometric factor 2^-(j+k) is below 2^-(3p+60)
+             lambda: mp.fsum(mp.mpf(1) / (((j - 2) ** 2 + (k - 1) ** 2) * mp.mpf(2) ** (j + k)) for j in range(3 * p + 80) for k in range(3 * p + 80 - j) if (j, k) != (2, 1))),
             ('ignore finite x infinite', lambda: mp.nsum(lambda j, k: 1 / ((j - 1) * mp.mpf(2) ** k), [0, 3], [1, inf], ignore=True), lambda: (mp.mpf(-1) + 1 + mp.mpf(1) / 2) * 1),
         ]
         for desc, g, ex in cases:
